@@ -175,41 +175,16 @@ func (m *RTMon) Feed(e RTEvent) {
 			m.Bad = append(m.Bad, "internal-unknown-context")
 			return
 		}
-		cc := *c
-		// pop it (and anything above it)
+		// pop it; a context above it that never logged its own "after" went
+		// down with it (killed)
 		for len(m.stack) > 1 {
 			t := m.stack[len(m.stack)-1]
 			m.stack = m.stack[:len(m.stack)-1]
 			if t.inst == e.ID {
+				m.closeCtx(t, e.Status, e.CPU)
 				break
 			}
-		}
-		if cc.isolate {
-			for _, id := range m.ids() {
-				v := m.vals[id]
-				if v.Owner != cc.inst {
-					continue
-				}
-				if e.Status == "killed" {
-					// finalisers are skipped
-					if v.F == Owed {
-						v.F = None
-					}
-				} else if v.F == Owed && !v.Foreign {
-					m.bad("lost-finaliser", id)
-				}
-				if v.F != None {
-					v.F = None
-				}
-				if v.R == Owed {
-					m.bad("lost-release", id)
-				}
-				v.R = None
-				v.Owner = -1
-			}
-		}
-		if cc.tracked && cc.sawGcEnd && e.Status != "killed" && e.CPU < cc.lastGcEnd {
-			m.Bad = append(m.Bad, "finaliser-cpu-not-charged-to-context")
+			m.closeCtx(t, "killed", 0)
 		}
 	case "closebegin":
 		m.closing = true
@@ -253,6 +228,12 @@ func (m *RTMon) Feed(e RTEvent) {
 		if e.Status != "live" {
 			m.bad("finaliser-in-dead-context", e.ID)
 		}
+		for i := range m.stack {
+			if m.stack[i].inst == v.Owner && e.Depth < i {
+				// finalisers of values created in a limited context run inside it
+				m.bad("finalised-outside-context", e.ID)
+			}
+		}
 		if v.Held && !m.closingFor(v) && !v.Foreign {
 			m.bad("held", e.ID)
 		}
@@ -269,12 +250,17 @@ func (m *RTMon) Feed(e RTEvent) {
 		if m.inHandler == e.ID {
 			m.inHandler = 0
 		}
-		t := m.top()
-		if t.tracked {
-			if e.CPU <= m.gcStart {
-				m.bad("finaliser-cpu-not-charged", e.ID)
+		// the context the finaliser ran in is the one at the observed depth
+		// (a context may already have been popped when its "after" marker
+		// has not been logged yet)
+		if e.Depth < len(m.stack) {
+			t := &m.stack[e.Depth]
+			if t.tracked {
+				if e.CPU <= m.gcStart {
+					m.bad("finaliser-cpu-not-charged", e.ID)
+				}
+				t.lastGcEnd, t.sawGcEnd = e.CPU, true
 			}
-			t.lastGcEnd, t.sawGcEnd = e.CPU, true
 		}
 	case "rel":
 		v := m.val(e.ID)
@@ -292,7 +278,8 @@ func (m *RTMon) Feed(e RTEvent) {
 		case v.R == None:
 			m.bad("release-not-owed", e.ID)
 		}
-		if v.Held && !m.closingFor(v) && !v.Foreign {
+		if v.Held && !m.closingFor(v) && e.Status != "killed" {
+			// (a killed context is being torn down: close-time release)
 			m.bad("released-while-held", e.ID)
 		}
 		if m.closed {
@@ -302,6 +289,32 @@ func (m *RTMon) Feed(e RTEvent) {
 		v.Released++
 	default:
 		m.Bad = append(m.Bad, "internal-unknown-event-"+e.Kind)
+	}
+}
+
+// closeCtx settles the accounts of a context that has been popped.
+func (m *RTMon) closeCtx(cc rtCtx, status string, cpu uint64) {
+	if cc.isolate {
+		for _, id := range m.ids() {
+			v := m.vals[id]
+			if v.Owner != cc.inst {
+				continue
+			}
+			if status != "killed" && v.F == Owed && !v.Foreign {
+				// exactly once by the time its owning context is closed
+				m.bad("lost-finaliser", id)
+			}
+			v.F = None // (killed: finalisers are skipped)
+			if v.R == Owed && !v.Foreign {
+				// releases are not skipped, even when killed
+				m.bad("lost-release", id)
+			}
+			v.R = None
+			v.Owner = -1
+		}
+	}
+	if cc.tracked && cc.sawGcEnd && status != "killed" && cpu < cc.lastGcEnd {
+		m.Bad = append(m.Bad, "finaliser-cpu-not-charged-to-context")
 	}
 }
 
